@@ -3,6 +3,7 @@ package main
 // The forking symbolic executor over go/ssa.
 
 import (
+	"time"
 	"fmt"
 	"go/constant"
 	"go/token"
@@ -526,6 +527,10 @@ func (e *Exec) run(init *State) {
 		e.work = e.work[:len(e.work)-1]
 		e.runState(st)
 		if e.res.Aborted != "" {
+			return
+		}
+		if time.Now().After(e.cfg.Deadline) {
+			e.res.Aborted = "wall-clock budget of the check exhausted"
 			return
 		}
 		if e.cfg.MaxPaths > 0 && e.res.Paths > e.cfg.MaxPaths {
